@@ -29,6 +29,8 @@ CHAIN_MODULES = ['convolve.convolve', 'convolve.monochromatic', 'models', 'fit',
 
 
 def run(ctx):
+    from . import c14
+    c14.check_get_av(ctx)        # the A_V reported is in units of the law normalised at 0.55 micron, whatever unit the law is tabulated in
     repo = ctx.repo
     # hop 1: names <-> files, rows of the convolved tables
     from .. import roundtrip
